@@ -390,6 +390,10 @@ class Reader:
                         if X0[1]["path"].endswith("::partial_cmp") and ordv == "Equal":
                             return ("feq", "Ne" if neg else "Eq", self.number(X0[2][0]), self.number(X0[2][1]))
                         return ("fcmp-other", "%s==%s" % (X0[1]["path"].rsplit("::", 1)[1], ordv), show_expr(v)[:100])
+                # two constants (`type_of(a) != type_of(b)` with both kinds fixed: "object" vs "string"): decided
+                ca_, cb_ = strip_refs(v[2][0]), strip_refs(v[2][1])
+                if ca_[0] == "const" and cb_[0] == "const" and isinstance(const_value(ca_[1]), (str, int, bool)) and isinstance(const_value(cb_[1]), (str, int, bool)):
+                    return ("const", (const_value(ca_[1]) == const_value(cb_[1])) != neg)
                 oa, ob = self.option(v[2][0]), self.option(v[2][1])
                 if oa is not None and ob is not None:
                     # equality of two Options whose state is known
